@@ -88,6 +88,11 @@ pub struct Obj {
     pub wire_completed: u64,
     pub pkts_total: u64,
     pub forced_seen: bool,
+    /// fault schedule of the (stream) source: code of the n-th transfer attempt (0 = open fails, >= 1 = first read fails)
+    pub faults: Vec<u64>,
+    /// EMPTY object sent with a rateless codec from a buffer: one transfer = its `parity` repair packets (the op's
+    /// nSym is that packet count; the model's "number of packets of one transfer" is an input)
+    pub rateless_empty: bool,
 }
 
 impl Obj {
@@ -255,6 +260,11 @@ impl SchedEngine {
         if o.removed.is_some() || o.gone || o.in_transfer {
             return false;
         }
+        // while a source of the case can fail, "ready" objects may yield nothing (the attempt fails and the slot gives
+        // the hand back): the priority / idle oracles are stated for fault-free cases (as the theorems are)
+        if self.objs.values().any(|x| !x.faults.is_empty()) {
+            return false;
+        }
         let full = self.cfg.as_ref().map(|c| c.full).unwrap_or(true);
         if full && !o.published_for_sure {
             return false;
@@ -275,6 +285,9 @@ impl SchedEngine {
     /// object in a slot whose next packet is due at `now`
     fn surely_due(&self, o: &Obj, now: u64) -> bool {
         if !o.in_transfer || o.removed.is_some() || o.sent >= o.n_pk {
+            return false;
+        }
+        if self.objs.values().any(|x| !x.faults.is_empty()) {
             return false;
         }
         match o.tick {
@@ -338,16 +351,35 @@ impl SchedEngine {
 
     fn exec_add(&mut self, t: &[&str]) -> String {
         // add <prio> <nSym> <maxCount> <n|d|i> <carNs> <-|startNs> <n|f|d|t> <targetNs> <0|1> <E> <B> <rem> [x<expiresNs>]
-        if t.len() != 13 && t.len() != 14 {
+        if t.len() < 13 || t.len() > 15 {
             return "bad-op".into();
         }
-        let cache_control = match t.get(13) {
-            None => None,
-            Some(x) => match x.strip_prefix('x').and_then(|v| v.parse::<u64>().ok()) {
-                Some(v) => Some(flute::sender::CacheControl::Expires(dur(v))),
-                None => return "bad-op".into(),
-            },
-        };
+        // optional tokens: x<expiresNs> (cache control, harness only), F<c0,c1,..> (fault schedule of a STREAM source)
+        let mut cache_control = None;
+        let mut faults: Vec<u64> = Vec::new();
+        // Q<p> / R<p>: EMPTY object with RaptorQ / Raptor and p parity symbols (buffer source)
+        let mut rateless: Option<(char, u64)> = None;
+        for x in &t[13..] {
+            if let Some(v) = x.strip_prefix('Q').and_then(|v| v.parse::<u64>().ok()) {
+                rateless = Some(('Q', v));
+                continue;
+            }
+            if let Some(v) = x.strip_prefix('R').and_then(|v| v.parse::<u64>().ok()) {
+                rateless = Some(('R', v));
+                continue;
+            }
+            if let Some(v) = x.strip_prefix('x').and_then(|v| v.parse::<u64>().ok()) {
+                cache_control = Some(flute::sender::CacheControl::Expires(dur(v)));
+            } else if let Some(v) = x.strip_prefix('F') {
+                let l: Vec<Option<u64>> = v.split(',').map(|y| y.parse::<u64>().ok()).collect();
+                if l.is_empty() || l.iter().any(|y| y.is_none()) {
+                    return "bad-op".into();
+                }
+                faults = l.into_iter().map(|y| y.unwrap()).collect();
+            } else {
+                return "bad-op".into();
+            }
+        }
         let p = |i: usize| t[i].parse::<u64>().ok();
         let (prio, n_sym, maxc, card, td, al, e, bl, rem) =
             match (p(1), p(2), p(3), p(5), p(8), p(9), p(10), p(11), p(12)) {
@@ -377,7 +409,13 @@ impl SchedEngine {
         if al > 1 || e == 0 || e > 65535 || bl == 0 || rem == 0 || rem > e {
             return "bad-op".into();
         }
-        let len = if n_sym == 0 { 0 } else { (n_sym - 1) * e + rem };
+        if let Some((_, pz)) = rateless {
+            // the op's nSym is the packet count of one transfer = parity; such an object is never paced
+            if pz == 0 || pz != n_sym || target.is_some() || !faults.is_empty() {
+                return "bad-op".into();
+            }
+        }
+        let len = if n_sym == 0 || rateless.is_some() { 0 } else { (n_sym - 1) * e + rem };
         let sender = match self.sender.as_mut() {
             Some(s) => s,
             None => return "bad-op".into(),
@@ -399,7 +437,17 @@ impl SchedEngine {
                 'd' => TargetAcquisition::WithinDuration(Duration::from_nanos(d)),
                 _ => TargetAcquisition::WithinTime(st(d)),
             }),
-            oti: Some(Oti::new_no_code(e as u16, bl as u16)),
+            oti: Some(match rateless {
+                None => Oti::new_no_code(e as u16, bl as u16),
+                Some(('Q', pz)) => match Oti::new_raptorq(e as u16, bl as u16, pz as u16, 1, 1) {
+                    Ok(x) => x,
+                    Err(_) => return "bad-op".into(),
+                },
+                Some((_, pz)) => match Oti::new_raptor(e as u16, bl as u16, pz as u16, 1, 1) {
+                    Ok(x) => x,
+                    Err(_) => return "bad-op".into(),
+                },
+            }),
             transfer_start_time: start.map(st),
             toi: Some(toi_box),
             allow_immediate_stop_before_first_transfer: if al == 1 { Some(true) } else { None },
@@ -410,11 +458,20 @@ impl SchedEngine {
             None => config,
         };
         let url = url::Url::parse(&format!("file:///o{}", toi)).unwrap();
-        let obj = match ObjectDesc::create_from_buffer(content, "application/octet-stream", &url, false, config) {
+        let sched = crate::probe::Schedule::new(faults.clone());
+        let obj = if faults.is_empty() {
+            ObjectDesc::create_from_buffer(content, "application/octet-stream", &url, false, config)
+        } else {
+            ObjectDesc::create_from_stream(Box::new(crate::probe::Scheduled::new(content, sched.clone())), "application/octet-stream", &url, false, config)
+        };
+        let obj = match obj {
             Ok(o) => o,
             Err(_) => return "ERR".into(),
         };
-        match sender.add_object(prio as u32, obj) {
+        let added = sender.add_object(prio as u32, obj);
+        // transfer attempts are counted from here on (the i-th rewind of the source = the i-th transfer start)
+        sched.arm();
+        match added {
             Ok(v) => {
                 let o = Obj {
                     toi,
@@ -447,6 +504,8 @@ impl SchedEngine {
                     wire_completed: 0,
                     pkts_total: 0,
                     forced_seen: false,
+                    faults: faults.clone(),
+                    rateless_empty: rateless.is_some(),
                 };
                 self.objs.insert(toi, o);
                 self.lens.insert(toi, len);
@@ -738,7 +797,14 @@ impl SchedEngine {
             o.fail("C12:stop-without-start", &format!("StopTransfer for {} which is not in transfer", toi));
         }
         let forced = ob.removed.as_ref().map(|r| r.stoppable).unwrap_or(false);
-        if !forced {
+        // a transfer attempt whose source fails (seek at the start, or the first read) yields no packet
+        let faulted = ob.faults.get(ob.stops as usize).is_some();
+        if faulted {
+            if ob.sent != 0 {
+                o.fail("C12:faulted-attempt-sent-packets", &format!("attempt {} of {} (fault code {:?}) sent {} packets", ob.stops + 1, toi, ob.faults.get(ob.stops as usize), ob.sent));
+            }
+            self.nontrivial.insert("stream-fault");
+        } else if !forced {
             if ob.sent != ob.n_pk {
                 o.fail("C12:incomplete-transfer", &format!("transfer of {} stops after {} of {} packets", toi, ob.sent, ob.n_pk));
             }
@@ -753,6 +819,14 @@ impl SchedEngine {
             }
             if ob.n_sym == 0 {
                 want.insert((0, 0));
+            }
+            if ob.rateless_empty {
+                // the repair symbols of the empty block 0
+                want.clear();
+                for esi in 0..ob.n_sym {
+                    want.insert((0, esi as u32));
+                }
+                self.nontrivial.insert("empty-rateless");
             }
             if ob.seen != want {
                 o.fail("C12:symbols-of-transfer", &format!("transfer of {}: symbols seen {:?} != expected {:?}", toi, ob.seen, want));
@@ -1192,7 +1266,12 @@ impl Engine for SchedEngine {
                     if let (Some(v), Some(ob)) = (r, self.objs.get(&toi)) {
                         // completed transfers = Stop events; the wire may be ahead by the one transfer
                         // whose last packet went out but whose completion was not polled yet
-                        if v != ob.stops || !(ob.stops <= ob.wire_completed && ob.wire_completed <= ob.stops + 1) {
+                        let faulted_so_far = ob.faults.iter().take(ob.stops as usize).count() as u64;
+                        if v == ob.stops && faulted_so_far > 0 && ob.wire_completed + faulted_so_far >= ob.stops && ob.wire_completed <= ob.stops + 1 {
+                            if ob.wire_completed < ob.stops {
+                                o.fail("C12:transfer-count-includes-failed-attempt", &format!("nb_transfers({}) = {} = StopTransfer events, of which {} attempts failed to start; complete transfers on the wire {}", toi, v, faulted_so_far, ob.wire_completed));
+                            }
+                        } else if v != ob.stops || !(ob.stops <= ob.wire_completed && ob.wire_completed <= ob.stops + 1) {
                             o.fail("C12:nb-transfers-wire", &format!("nb_transfers({}) = {}, StopTransfer events {}, complete transfers on the wire {}", toi, v, ob.stops, ob.wire_completed));
                         }
                         if v > 0 {
